@@ -5,6 +5,7 @@ import (
 	"fmt"
 	goio "io"
 	"os"
+	"sort"
 
 	"github.com/evolbioinfo/gotree/io"
 	"github.com/evolbioinfo/gotree/tree"
@@ -138,7 +139,12 @@ should produce the following output:
 				}
 			}
 
+			names := make([]string, 0, len(tips))
 			for k := range tips {
+				names = append(names, k)
+			}
+			sort.Strings(names)
+			for _, k := range names {
 				if ok, err = refTree.ExistsTip(k); err != nil {
 					io.LogError(err)
 					return
